@@ -296,6 +296,8 @@ def correspondence(ctx, budget=None):
         [("REST", "3", None), ("STOR", "new", b"abc"), (ftpsim.DATACONN, "", None), ("MLSD", "", None)],
         [("CWD", "d", None), ("USER", "nopw", None), ("PWD", "", None), ("USER", "u", None), ("PWD", "", None), ("PASS", "pw", None), ("PWD", "", None)],
         [("STOR", "d", b"x"), ("PWD", "", None)],
+        # the other RFC 959 type / protection letters and empty arguments (502 each): TYPE/PROT accept exactly I, A / P
+        [("TYPE", "E", None), ("TYPE", "L", None), ("TYPE", "i", None), ("TYPE", "", None), ("PROT", "S", None), ("PROT", "", None), ("PROT", "p", None)],
         [("RETR", "g", None), ("PWD", "", None), (ftpsim.DATACONN, "", None), (ftpsim.DATACONN, "", None), ("RETR", "g", None), ("RETR", "g", None)],
     ]
     for t in targeted:
